@@ -1425,7 +1425,7 @@ CONTRACTS = [
              [_reaction_case(u, b, w, t) for u in (FlowUnits.GPM, FlowUnits.LPS) for (b, w, t) in ((1, 1, 2), (2, 1, 1), (0, 0, 1))],
              models=_token_models, interpret_always=(_roundtrip_call,),
              note="one pipe, one tank, global coefficients; the ORDER lines follow the coefficients in the written text", trusted=_pair_trust),
-    Contract("wntr.epanet.io:InpFile._write_sources/_read_sources", P, [_source_case(u, t, hp) for u in _U for (t, hp) in (("MASS", False), ("CONCEN", True), ("SETPOINT", False), ("FLOWPACED", True))],
+    Contract("wntr.epanet.io:InpFile._write_sources/_read_sources", P, [_source_case(u, t, hp) for u in _U for (t, hp) in (("MASS", False), ("CONCEN", True), ("SETPOINT", False), ("FLOWPACED", True), ("mass", True), ("Mass", False), ("concen", False))],
              models=_token_models, interpret_always=(_roundtrip_call,), trusted=_pair_trust),
     Contract("wntr.epanet.io:InpFile._write_curves", P + ["C03"], [_curve_case(u, t) for u in _U for t in ("HEAD", "VOLUME", "EFFICIENCY", "HEADLOSS", None)],
              interpret_always=(_write_only,),
